@@ -359,11 +359,28 @@ func (g *gen) runHooked(root string, writers []wspec, sched []sev) (points []int
 			last[s.Idx] = advance(s.Idx)
 			points = append(points, last[s.Idx])
 		case "F":
-			// fault injection: the writer is held at "closed"; its temporary file is unlinked behind its
-			// back, so os.Rename fails and WriteFile takes its error path (Close, Remove, return the error)
+			// fault injection: the writer is held at "closed"; os.Rename is made to fail, so WriteFile
+			// takes its error path (Close, Remove the temporary file, return the error)
 			if state[s.Idx] == 1 && last[s.Idx] == 3 {
-				os.Remove(filepath.Join(root, tmps[s.Idx]))
+				// os.Rename(temp, key) is made to fail WITHOUT taking the temporary name away, so that the
+				// deferred clean-up is observable: if the key does not exist yet a directory is put in its
+				// place for the duration of the step (rename file -> directory: EISDIR); otherwise the
+				// temporary file is replaced by an empty directory of the same name (rename directory ->
+				// file: ENOTDIR), which the clean-up's os.Remove removes just the same
+				keyPath := filepath.Join(root, e.keyOf[writers[s.Idx].URL])
+				tmpPath := filepath.Join(root, tmps[s.Idx])
+				blocked := false
+				if _, err := os.Lstat(keyPath); err != nil {
+					blocked = os.Mkdir(keyPath, 0o700) == nil
+				}
+				if !blocked {
+					os.Remove(tmpPath)
+					os.Mkdir(tmpPath, 0o700)
+				}
 				last[s.Idx] = advance(s.Idx)
+				if blocked {
+					os.Remove(keyPath)
+				}
 				points = append(points, last[s.Idx])
 			} else {
 				points = append(points, 0)
